@@ -390,7 +390,8 @@ def check(ctx: Ctx) -> None:
                 cur = [b_]
         runs.append(cur)
         return runs
-    stubs = {"array": lambda x, *a, **k: list(x), "DataSet": lambda f, Z, **k: ("DataSet", list(f), list(Z)), "complex": lambda re_, im_: (re_, im_)}
+    from ..miniinterp import module_globals as _mg
+    stubs = _mg(ctx.repo.modules[DS].tree, {"array": lambda x, *a, **k: list(x), "DataSet": lambda f, Z, **k: ("DataSet", list(f), list(Z)), "complex": lambda re_, im_=0: (re_, im_)})
     n_worlds = 0
     witness = None
     nmax = 7 if ctx.tier == "thorough" else 6
@@ -460,8 +461,19 @@ def check(ctx: Ctx) -> None:
     else:
         ctx.violation("R6.5", "parse_data:csv-fallback", DATA, pd_.node, "a .csv that cannot be read with the defaults must be re-read with sep=None and decimal=','")
     for mod, fn in ((f"{FMT}.csv", "parse_csv"), (f"{FMT}.z", "parse_z")):
-        fi = model.fi(mod, fn)
+        fi0 = model.fi(mod, fn)
+        fi = fi0
         ctx.instance("R6.5", f"{fn}: one-column frames are re-read with tab, space, semicolon, comma from a list that is fresh for every call")
+        has_loop = lambda f_: any(isinstance(n, ast.While) and norm(n.test) == "len(df.columns) == 1" for n in walk_ordered(f_.node))
+        via = None
+        if not has_loop(fi0):
+            # the retry loop may live in a helper shared by the delimited-text parsers
+            for c in calls_in(fi0.node):
+                q_ = model.resolve_call(fi0, c)
+                if q_ and q_ in model.funcs and q_ != fi0.qname and has_loop(model.funcs[q_]):
+                    fi, via = model.funcs[q_], c
+                    mod = fi.module
+                    break
         pops = [c for c in calls_in(fi.node) if isinstance(c.func, ast.Attribute) and c.func.attr == "pop" and isinstance(parent(c), ast.Assign) and norm(parent(c).targets[0]) == "kwargs['sep']"]
         loops = [n for n in walk_ordered(fi.node) if isinstance(n, ast.While) and norm(n.test) == "len(df.columns) == 1"]
         if len(pops) != 1 or len(loops) != 1 or not any(x is pops[0] for x in ast.walk(loops[0])):
@@ -497,9 +509,16 @@ def check(ctx: Ctx) -> None:
             ctx.ok()
         else:
             ctx.violation("R6.5", f"{fn}:separators", mod, pops[0], f"{fn}: the fallback separators must be tab, space, semicolon and comma taken from a list created for this call ({why or elems})")
-        rets = [n for n in walk_ordered(fi.node) if isinstance(n, ast.Return)]
-        if not (len(rets) == 1 and norm(rets[0].value) == "dataframe_to_data_sets(df, path=path)"):
-            ctx.violation("R6.5", f"{fn}:handover", mod, fi.node, f"{fn} must hand the frame it read to dataframe_to_data_sets")
+        rets = [n for n in walk_ordered(fi0.node) if isinstance(n, ast.Return)]
+        handed = len(rets) == 1 and norm(rets[0].value) == "dataframe_to_data_sets(df, path=path)"
+        if via is not None:
+            # df = helper(df, …) and the helper returns the frame it re-read
+            st_ = parent(via)
+            handed = handed and isinstance(st_, (ast.Assign, ast.AnnAssign)) and norm(st_.targets[0] if isinstance(st_, ast.Assign) else st_.target) == "df" \
+                and any(norm(a) == "df" for a in via.args) and any(norm(a) == "kwargs" for a in list(via.args) + [k.value for k in via.keywords]) \
+                and [norm(r.value) for r in walk_ordered(fi.node) if isinstance(r, ast.Return)] == ["df"]
+        if not handed:
+            ctx.violation("R6.5", f"{fn}:handover", fi0.module, fi0.node, f"{fn} must hand the frame it read to dataframe_to_data_sets")
     from ..effects import stateless_rule
     fmods = tuple(sorted(m for m in ctx.repo.modules if m.startswith(FMT + ".") and m.split(".")[-1] in ("csv", "mpt", "p00", "dfr", "i2b", "dta", "z", "helpers")))
     stateless_rule(ctx, model, "R6.5", fmods + (DATA,), 10, "parsing one file changes what the next file in the same process is parsed with")
